@@ -31,6 +31,11 @@ Definition caller_free (r : rs) (i : nat) : option sess :=
   | Some c => match c_a c with
               | A1 => if r_armC r then None else caller_step (r_s r) i false (wr_of (r_s r))
               | A4 => if r_armW r then None else caller_step (r_s r) i false (wr_of (r_s r))
+              | A2w =>
+                  (* gate write.done sits right after the socket write, before a failed write
+                     completes the call: a failing writer parks with the call still open *)
+                  if r_armW r && negb (match wr_of (r_s r) with WOk => true | _ => false end) then None
+                  else caller_step (r_s r) i false (wr_of (r_s r))
               | _ => caller_step (r_s r) i false (wr_of (r_s r))
               end
   | None => None
